@@ -55,7 +55,8 @@ Deliverables in /tmp/mut/{name}/ :
                    "files_changed": [...], "demo_location": "url/zz_demo_test.go" (or "canonicalizer/zz_demo_test.go"),
                    "commands_run": [...], "why_tests_pass": "<why the existing suite does not notice>"}}
 Verify all of it yourself: copy demo_test.go to the demo_location inside the worktree, run it with and without the change
-(use `git stash` or `git apply -R`), run the full suite with the change (demo file removed), run the builds of (a). Leave the
+(use `git diff > patch.diff`, then `git apply -R patch.diff` / `git apply patch.diff`; NEVER `git stash`: the stash is shared with
+other people's worktrees of the same repository), run the full suite with the change (demo file removed), run the builds of (a). Leave the
 worktree with the change applied and WITHOUT the demo file. Final message: a short summary plus the three file paths.
 '''
     if ideas:
